@@ -70,6 +70,12 @@ pub fn map_code(check: &str, v: &Viol) -> Option<&'static str> {
             "barrier" => Some("C09.barrier"),
             _ => None,
         },
+        // C10's panic pass: every single panic position (as C18), only the ledger is judged — a panic must not leak or double-drop
+        // any value (unwinding drops what the caller holds; detached threads / tasks drop theirs when they end)
+        "C10p" => match g {
+            "leak" => Some("C10.leak"),
+            _ => None,
+        },
         "C10" => match g {
             "events_missing" | "events_extra" if plain_ev => Some("C10.event_count"),
             "event_args" | "lineage" if plain_ev => Some("C10.event_args"),
@@ -1253,9 +1259,13 @@ fn run_cmd(progs: &[&'static Prog], args: &[String]) {
     let only: Option<u32> = arg(args, "--only").and_then(|s| s.parse().ok());
     let scale: f64 = arg(args, "--scale").and_then(|s| s.parse().ok()).unwrap_or(1.0);
     let max_fail: usize = arg(args, "--max-fail").and_then(|s| s.parse().ok()).unwrap_or(4);
-    let mode = if check == "C10c" { PlanMode::Cancel } else { mode_of(&check) };
+    let mode = if check == "C10c" { PlanMode::Cancel } else if check == "C10p" { PlanMode::PanicEnum } else { mode_of(&check) };
     let check_name: &str = if check == "C10c" { "C10" } else { &check };
     let mut b = budget(mode, tier == "thorough", check_name);
+    if check == "C10p" {
+        // positions are enumerated; two schedules per position are enough for a ledger that does not depend on the order
+        b.scheds = if tier == "thorough" { 4 } else { 2 };
+    }
     b.plans = ((b.plans as f64) * scale).ceil().max(1.0) as u32;
     b.scheds = ((b.scheds as f64) * scale).ceil().max(1.0) as u32;
     let t0 = std::time::Instant::now();
